@@ -77,6 +77,9 @@ pub struct SeenVote {
     pub hash: Option<BlockHash>,
 }
 
+/// Slots from here on are outside any run (hostile inputs only).
+pub const FAR_SLOT: u64 = 1 << 40;
+
 #[derive(Clone, Debug)]
 pub struct SeenCert {
     pub at_ms: u64,
@@ -304,6 +307,18 @@ impl Observer {
                 Iface::A2A => {
                     let Ok(msg) = alpenglow::network::deserialize::<ConsensusMessage>(&rec.bytes) else { continue };
                     let from = rec.from_node;
+                    // Votes and certificates for absurdly distant slots (hostile leaders sign blocks up
+                    // to u64::MAX, and correct nodes then legitimately vote skip there) are not part of
+                    // the run's history: no oracle below is about them, and slot arithmetic on them
+                    // would overflow.
+                    let msg_slot = match &msg {
+                        ConsensusMessage::Vote(v) => v.slot().inner(),
+                        ConsensusMessage::Cert(c) => c.slot().inner(),
+                    };
+                    if msg_slot >= FAR_SLOT {
+                        kernel::probe("observer_ignored_message_for_distant_slot");
+                        continue;
+                    }
                     match msg {
                         ConsensusMessage::Vote(v) => {
                             if from < self.n {
@@ -399,6 +414,9 @@ impl Observer {
                     if rec.bytes.len() > 24 {
                         // Shred layout: u32 variant tag, then header.slot as u64 LE
                         let slot = u64::from_le_bytes(rec.bytes[4..12].try_into().unwrap());
+                        if slot >= FAR_SLOT {
+                            continue;
+                        }
                         let slot = Slot::new(slot);
                         let leader = self.epoch.leader(slot).id.as_usize();
                         if rec.from_node == leader {
